@@ -102,6 +102,7 @@ type trzszTransfer struct {
 	bufInitPhase     atomic.Bool
 	bufferSize       atomic.Int64
 	savedSteps       atomic.Int64
+	resumeRestSize   int64
 	transferConfig   transferConfig
 	logger           *traceLogger
 	createdFiles     []string
@@ -1257,6 +1258,7 @@ func (t *trzszTransfer) recvFiles(path string, progress progressCallback) ([]str
 		var err error
 		var file fileWriter
 		var localName string
+		t.resumeRestSize = -1
 		if t.transferConfig.Protocol >= kProtocolVersion3 {
 			file, localName, err = t.recvFileNameV3(path, progress)
 		} else {
@@ -1279,6 +1281,9 @@ func (t *trzszTransfer) recvFiles(path string, progress progressCallback) ([]str
 		size, err := t.recvFileSize(progress)
 		if err != nil {
 			return nil, err
+		}
+		if t.resumeRestSize >= 0 && size != t.resumeRestSize {
+			return nil, simpleTrzszError("Resume offset mismatch: %d bytes announced, %d expected", size, t.resumeRestSize)
 		}
 
 		var digest []byte
